@@ -134,3 +134,35 @@ Definition frag_tokens (conv : numconv) (stmts : list (option node)) : option (l
     end
   | _ => None
   end.
+
+(* programs that are sequences of fragment expression statements.  [fresh_type]: the type-level part of the
+   condition under which a following statement cannot continue the previous one (Roundtrip_expr.starts_fresh;
+   an opening parenthesis additionally needs white space in front of it, which every print mode emits
+   between statements) *)
+Definition fresh_type (ty : Z) : bool :=
+  match table_get postfix_fns ty with Some _ => false | None => true end
+  && negb (Z.eqb ty token_LAMBDA)
+  && (Z.leb (precedence_of ty) ast_LOWEST || Z.eqb ty token_LPAREN).
+
+Fixpoint frag_exprs (conv : numconv) (stmts : list (option node)) : option (list ex) :=
+  match stmts with
+  | [] => Some []
+  | Some n :: rest =>
+    match of_node n, frag_exprs conv rest with
+    | Some e, Some es => if wf_ex conv e then Some (e :: es) else None
+    | _, _ => None
+    end
+  | None :: _ => None
+  end.
+
+(* None: not a fragment program; Some None: a fragment program outside the domain of the theorem (a
+   following statement starts with a token that continues the previous statement: the recorded finding
+   statement-starts-with-prefix-operator); Some (Some ts): the token sequence of the theorem *)
+Definition frag_prog_tokens (conv : numconv) (stmts : list (option node)) : option (option (list tok)) :=
+  match stmts, frag_exprs conv stmts with
+  | _ :: _, Some es =>
+    if forallb (fun e => match body e with t :: _ => fresh_type (ttype t) | [] => false end) (tl es)
+    then Some (Some (List.concat (map body es)))
+    else Some None
+  | _, _ => None
+  end.
